@@ -5,6 +5,10 @@ import Kdf.Model.Oom
 new <g> <x> <n>              kdump_new with g global attributes, x translation attributes, failing allocation n (0 = none)
 clone <xl 0|1> <k> <m> <n>   kdump_clone(flags = xl ? KDUMP_CLONE_XLAT : 0), k per-context slots, m attribute-clone allocations
 rgn <inc> <n0> <ok 0|1>      add_pfn_region on a map holding n0 regions
+slot <name> <c> <n>          per_ctx_alloc on an object with c contexts
+pgsz <name> <c> <m> <n>      kdump_set_attr("arch.page_size") on an open LKCD dump: c contexts (old slot buffers = blocks 1..c),
+                             page cache of m blocks (old cache = blocks c+1..c+m); blocks that existed before the call print as `fp`
+pmap <name> <g> <n>          kdump_get_attr("memory.pagemap") building the map with g growth steps of the region array
 ```
 Output per case: `> <name> n=<n> ret=<obj|null> inj=<0|1> cnt=<attempts> locks=<held> leak=<blocks> end=<done|undefined>[ refs=<shared>/<dict>/<xlat>]`
 followed by `> T <canonical trace>`.
@@ -19,6 +23,35 @@ def report (name : String) (n total : Nat) (r : Bool × St) (refs : Bool) : IO U
   let refsTxt := if refs then s!" refs={(s.shRef : Int) - 1}/{(s.dictRef : Int) - 1}/{(s.xlatRef : Int) - 1}" else ""
   IO.println s!"> {name} n={n} ret={if r.1 then "obj" else "null"} inj={inj} cnt={s.cnt} locks={s.rd + s.wr} leak={leak} end={if s.bad then "undefined" else "done"}{refsTxt}"
   IO.println ("> T " ++ " ".intercalate (canon s.trace))
+
+/-! trace with the blocks that existed before the call (ids ≤ base) printed as `fp`, the others
+renumbered from 1; every maximal run of frees sorted (numbered blocks first, by id) -/
+
+/-- sort key of a freed block: blocks that existed before the call sort after all numbered ones -/
+def relKey (base i : Nat) : Nat × Nat := if i ≤ base then (1, 0) else (0, i)
+
+def relLe (base i j : Nat) : Bool :=
+  let a := relKey base i; let b := relKey base j
+  a.1 < b.1 || (a.1 == b.1 && a.2 ≤ b.2)
+
+def relInsert (base i : Nat) : List Nat → List Nat
+  | [] => [i]
+  | j :: js => if relLe base i j then i :: j :: js else j :: relInsert base i js
+
+def canonRelGo (base : Nat) : List Ev → List Nat → List String
+  | [], burst => burst.map (fun i => if i ≤ base then "fp" else s!"f{i - base}")
+  | .f i :: es, burst => canonRelGo base es (relInsert base i burst)
+  | e :: es, burst =>
+    let txt := match e with
+      | .a i => s!"a{i - base}" | .F i => s!"F{i - base}" | .r i => s!"r{i - base}" | e => e.show
+    burst.map (fun i => if i ≤ base then "fp" else s!"f{i - base}") ++ (txt :: canonRelGo base es [])
+
+def canonRel (base : Nat) (tr : List Ev) : List String := canonRelGo base tr.reverse []
+
+def reportRel (name : String) (n base : Nat) (ok : Bool) (okTxt failTxt : String) (leak : Int) (s : St) : IO Unit := do
+  let inj := if s.failAt ≠ 0 ∧ s.failAt ≤ s.cnt then 1 else 0
+  IO.println s!"> {name} n={n} ret={if ok then okTxt else failTxt} inj={inj} cnt={s.cnt - base} locks={s.rd + s.wr + s.mtx} leak={leak} end={if s.bad then "undefined" else "done"}"
+  IO.println ("> T " ++ " ".intercalate (canonRel base s.trace))
 
 partial def loop (h : IO.FS.Stream) : IO Unit := do
   let line ← h.getLine
@@ -37,6 +70,23 @@ partial def loop (h : IO.FS.Stream) : IO Unit := do
     match addRegion inc.toNat! mp n0.toNat! (ok == "1") with
     | (some mp', _) => IO.println s!"> rgn ok n={mp'.regions.length} allocs={allocs} kept={mp'.regions.take n0.toNat! == mp.regions}"
     | (none, mp') => IO.println s!"> rgn null n={mp'.regions.length} allocs={allocs} kept={mp'.regions == mp.regions}"
+  | ["slot", name, c, n] =>
+    let r := perCtxAlloc c.toNat! (St.init n.toNat!)
+    let held := match r.1 with | some got => got.length | none => 0
+    reportRel name n.toNat! 0 r.1.isSome "obj" "null" ((r.2.live.length : Int) - held) r.2
+  | ["pgsz", name, c, m, n] =>
+    let c := c.toNat!; let m := m.toNat!; let n := n.toNat!
+    let base := c + m
+    let o : PgObj := { cbuf := some ((List.range c).map (· + 1)).reverse, cache := ((List.range m).map (· + c + 1)).reverse }
+    let s0 : St := { cnt := base, live := ((List.range base).map (· + 1)).reverse, failAt := if n = 0 then 0 else base + n }
+    let r := setPageSize {} c m o s0
+    let owned := r.2.1.bufs.length + r.2.1.cache.length
+    let dangling := (r.2.1.bufs ++ r.2.1.cache).filter (fun b => !(r.2.2.live.contains b))
+    let s := if dangling.isEmpty then r.2.2 else { r.2.2 with bad := true }
+    reportRel name n base r.1 "ok" "system" ((r.2.2.live.length : Int) - owned) s
+  | ["pmap", name, g, n] =>
+    let r := pagemapGet {} g.toNat! (St.init n.toNat!)
+    reportRel name n.toNat! 0 r.1 "ok" "system" r.2.live.length r.2
   | _ => IO.println "> bad-op"
   loop h
 
